@@ -332,7 +332,7 @@ pub fn run(ctx: &Ctx) -> i32 {
     rep.assume("reference denotation: optional '-' then decimal, 0x/0X hex, 0b/0B binary digits, or a character literal; fits iff -2^31 <= v <= 2^32-1");
     rep.assume("for lui only operands 0 <= v < 2^20 are judged (imm == v << 12); larger operands are recorded, not judged");
     rep.assume("`zero` being accepted as the immediate 0 is noted, not judged");
-    let n_random: usize = ctx.tier.pick(100_000, 1_000_000);
+    let n_random: usize = ctx.tier.pick(1_000_000, 10_000_000);
     let jobs = ctx.jobs;
     let acc = crate::report::run_sharded(ctx, |shard| {
         let mut acc = Acc::new();
